@@ -215,6 +215,19 @@ def check_stab(tree, spec, m, before, i, mi, out, info, mem):
                         out.append(V('C06', 'deep-restore-order', i, micro=mi, history=h,
                                      entered=en))
                         break
+                else:
+                    # children of one orthogonal state are entered in name order (C03)
+                    for a in range(len(en)):
+                        for b in range(a + 1, len(en)):
+                            q = tree.parent[en[a]]
+                            if q == tree.parent[en[b]] and tree.kind[q] == 'orthogonal' \
+                                    and en[a] > en[b]:
+                                out.append(V('C03', 'sibling-entry-order', i, micro=mi,
+                                             entered=en, parent=q, history=h))
+                                break
+                        else:
+                            continue
+                        break
             info.key('C06', ('dp', h, tuple(sorted(snap))))
         info.key('C02', ('hist', h, tuple(sorted(before))))
         return
@@ -285,7 +298,15 @@ def check_step(drive, rec, i, out, info, mem, state):
         register_sends(drive, rec, T)
         return None
 
-    sel = R.select(tree, spec, C, E['name'] if E else None, rec['gv'])
+    gv = rec['gv']
+    if any(t.get('aguard') for t in spec['transitions']):
+        # guards of the form gv[tid] and active(X): X is looked up in the configuration the step
+        # starts from
+        gv = dict(gv)
+        for t in spec['transitions']:
+            if t.get('aguard') is not None:
+                gv[t['id']] = gv[t['id']] and (t['aguard'] in C)
+    sel = R.select(tree, spec, C, E['name'] if E else None, gv)
     fired = sel['fired']
     fired_ids = sorted(t['id'] for t in fired)
     adm = R.classify(tree, fired) if len(fired) >= 2 else {'ok'}
@@ -427,8 +448,22 @@ def run_core(case, build=None, epilogue=False, want=None):
     out, info, mem, state = [], Info(), {}, {}
     recs = []
     ntr = len(spec['transitions'])
+    # in a quarter of the cases a second ("shadow") interpreter over the very same Statechart
+    # object is stepped in between: interpreters must not share any state
+    sh = None
+    if case.get('shadow', len(case['ops']) % 4 == 0):
+        sh = Drive(spec, sc=d.sc)
+        info.label('runs with a shadow interpreter on the same statechart')
     i = -1
     for i, op in enumerate(case['ops']):
+        if sh is not None and op[0] == 'step':
+            try:
+                if i % 3 == 0:
+                    sh.queue('e%d' % (i % 2), uid='sh%d' % i)
+                sh.advance(0.125)
+                sh.step([True] * ntr)
+            except Exception:
+                pass
         if op[0] == 'q':
             d.queue(op[1], delay=op[2], mode=op[3], uid=op[4])
             if op[2] is not None:
